@@ -179,10 +179,11 @@ class Axis(GetSetDelAttrMixin, AbstractAxis):
         >>> a.values
         array(['a', 2.0, 3.0], dtype=object)
         """
-        self._values = _maybe_cast_type(self._values, value)
+        values = _maybe_cast_type(self._values, value)
 
-        # now can proceed to asignment
-        self._values[item] = value
+        # now can proceed to asignment (a refused assignment leaves the axis as it was)
+        values[item] = value
+        self._values = values
 
         # here could do some additional check about _monotonic and other axis attributes
         # for now just set to None
